@@ -67,6 +67,9 @@ func prepWorld(w *world.World, oracle func(vr vResult) string, tags ...string) e
 	} else if oracle != nil {
 		fail = oracle(vr)
 	}
+	if fail == "" {
+		fail = vr.side
+	}
 	cls := "-"
 	if vr.err != nil {
 		cls = strings.ReplaceAll(hx.Trunc(vr.err.Error(), 40), " ", "_")
